@@ -102,6 +102,23 @@ def raiser(kind, tag):
     raise ERR[kind]("%s-%s" % (kind, tag))
 
 
+MODULE_LAMBDA = lambda x: x  # noqa: E731  (pickle refuses it with PicklingError)
+
+
+@task()
+def busy_lambda(tag):
+    CALL_LOG.append(("busy", "B", tag))
+    raise BusyError("B-%s" % tag, MODULE_LAMBDA)
+
+
+@task()
+def busy_local(tag):
+    def local():
+        return tag
+    CALL_LOG.append(("busy", "B", tag))
+    raise BusyError("B-%s" % tag, local)         # pickle refuses a local function with AttributeError
+
+
 @task()
 def busy(tag):
     CALL_LOG.append(("busy", "B", tag))
